@@ -40,18 +40,29 @@ func c09Run(c c09Case) (string, string) {
 	c09Outcome = ""
 	w := peers.NewWorld(rhPKI)
 	defer w.Close()
-	reply := func(stage, arg string) *smtp.SMTPError {
-		switch {
-		case strings.HasPrefix(c.Fault, "rcpt:") && stage == "rcpt" && strings.EqualFold(arg, c.Fault[5:]):
-			return peers.Err(550, [3]int{5, 1, 1}, "no such user")
-		case strings.HasPrefix(c.Fault, "rcpt421:") && stage == "rcpt" && strings.EqualFold(arg, c.Fault[8:]):
-			return peers.Err(421, [3]int{4, 4, 2}, "closing the channel")
-		case c.Fault == "data4" && stage == "data":
-			return peers.Err(451, [3]int{4, 3, 0}, "try later")
-		case c.Fault == "data5" && stage == "data":
-			return peers.Err(554, [3]int{5, 6, 0}, "content refused")
+	reply := func(host string) func(stage, arg string) *smtp.SMTPError {
+		return func(stage, arg string) *smtp.SMTPError {
+			switch {
+			case strings.HasPrefix(c.Fault, "mail") && stage == "mail":
+				// "mail5:<host>:<n>": this MX refuses the MAIL command of the n-th transaction
+				p := strings.Split(c.Fault, ":")
+				if len(p) == 3 && p[1] == host && strings.HasPrefix(arg, "sender"+p[2]+"@") {
+					if p[0] == "mail4" {
+						return peers.Err(451, [3]int{4, 7, 1}, "sender deferred")
+					}
+					return peers.Err(550, [3]int{5, 7, 1}, "sender refused")
+				}
+			case strings.HasPrefix(c.Fault, "rcpt:") && stage == "rcpt" && strings.EqualFold(arg, c.Fault[5:]):
+				return peers.Err(550, [3]int{5, 1, 1}, "no such user")
+			case strings.HasPrefix(c.Fault, "rcpt421:") && stage == "rcpt" && strings.EqualFold(arg, c.Fault[8:]):
+				return peers.Err(421, [3]int{4, 4, 2}, "closing the channel")
+			case c.Fault == "data4" && stage == "data":
+				return peers.Err(451, [3]int{4, 3, 0}, "try later")
+			case c.Fault == "data5" && stage == "data":
+				return peers.Err(554, [3]int{5, 6, 0}, "content refused")
+			}
+			return nil
 		}
-		return nil
 	}
 	drop := ""
 	if c.Fault == "drop-data" {
@@ -63,13 +74,13 @@ func c09Run(c c09Case) (string, string) {
 		dropFn = func(stage, arg string) bool { return stage == "rcpt" && strings.EqualFold(arg, c.Fault[9:]) }
 	}
 	for _, h := range []string{"mx.example.org", "mx.xn--e1afmkfd.xn--p1ai"} {
-		w.Add(peers.Script{Host: h, SMTPUTF8: c.UTF8Server, Reply: reply, DropAt: drop, Drop: dropFn})
+		w.Add(peers.Script{Host: h, SMTPUTF8: c.UTF8Server, Reply: reply(h), DropAt: drop, Drop: dropFn})
 	}
 	zones := map[string]mockdns.Zone{
-		"example.org.":             {MX: []net.MX{{Host: "mx.example.org.", Pref: 10}}},
-		"mx.example.org.":          {A: []string{"127.0.0.1"}},
-		"пример.рф.":               {MX: []net.MX{{Host: "mx.xn--e1afmkfd.xn--p1ai.", Pref: 10}}},
-		"xn--e1afmkfd.xn--p1ai.":   {MX: []net.MX{{Host: "mx.xn--e1afmkfd.xn--p1ai.", Pref: 10}}},
+		"example.org.":              {MX: []net.MX{{Host: "mx.example.org.", Pref: 10}}},
+		"mx.example.org.":           {A: []string{"127.0.0.1"}},
+		"пример.рф.":                {MX: []net.MX{{Host: "mx.xn--e1afmkfd.xn--p1ai.", Pref: 10}}},
+		"xn--e1afmkfd.xn--p1ai.":    {MX: []net.MX{{Host: "mx.xn--e1afmkfd.xn--p1ai.", Pref: 10}}},
 		"mx.xn--e1afmkfd.xn--p1ai.": {A: []string{"127.0.0.1"}},
 	}
 	tgt := rhTarget(w, zones, nil)
@@ -80,7 +91,7 @@ func c09Run(c c09Case) (string, string) {
 	for ti, rcpts := range c.History {
 		ctx := context.Background()
 		meta := &module.MsgMetadata{ID: fmt.Sprintf("c09-%d", ti), SMTPOpts: smtp.MailOptions{UTF8: c.UTF8Msg}}
-		from := "sender@origin.example"
+		from := fmt.Sprintf("sender%d@origin.example", ti+1)
 		if c.NullFrom != nil && *c.NullFrom == ti {
 			from = ""
 		}
@@ -172,7 +183,7 @@ func c09InEarlier(h [][]string, a string) bool {
 func TestVerifC09(t *testing.T) {
 	r := vx.Start("C09", "remote")
 	defer r.Finish()
-	r.Rule("histories of 1-2 (quick) / 1-3 (thorough) consecutive transactions through one real remote target (pooled connections) to scripted MX servers for two recipient domains; recipient lists of 1-2 from {ASCII, upper-case, IDN U-label, A-label, non-ASCII local part, second mailbox}; next hop with / without SMTPUTF8; message with / without SMTPUTF8; second transaction with an ordinary or the null sender; faults {none, RCPT refused for one address, DATA 4xx, DATA 5xx, connection dropped at DATA, connection dropped at the RCPT of one address, 421 at the RCPT of one address}; oracle: the multiset of SetStatus keys of each transaction equals, as exact strings, the addresses for which AddRcpt returned nil in that transaction. Non-trivial: distinct cases with a fault, a conversion or a reused connection")
+	r.Rule("histories of 1-2 (quick) / 1-3 (thorough) consecutive transactions through one real remote target (pooled connections) to scripted MX servers for two recipient domains; recipient lists of 1-2 from {ASCII, upper-case, IDN U-label, A-label, non-ASCII local part, second mailbox}; next hop with / without SMTPUTF8; message with / without SMTPUTF8; second transaction with an ordinary or the null sender; faults {none, RCPT refused for one address, DATA 4xx, DATA 5xx, connection dropped at DATA, connection dropped at the RCPT of one address, 421 at the RCPT of one address, MAIL refused (5xx / 4xx) by one of the two MX servers in the first or the second transaction (on a new or on the pooled connection)}; oracle: the multiset of SetStatus keys of each transaction equals, as exact strings, the addresses for which AddRcpt returned nil in that transaction. Non-trivial: distinct cases with a fault, a conversion or a reused connection")
 	if rp := r.Replay(); rp != nil {
 		var c c09Case
 		if json.Unmarshal(rp, &c) != nil {
@@ -218,7 +229,7 @@ func TestVerifC09(t *testing.T) {
 			}
 		}
 	}
-	faults := []string{"", "rcpt:a@example.org", "rcpt:b@xn--e1afmkfd.xn--p1ai", "data4", "data5", "drop-data", "droprcpt:d@example.org", "rcpt421:d@example.org"}
+	faults := []string{"", "rcpt:a@example.org", "rcpt:b@xn--e1afmkfd.xn--p1ai", "data4", "data5", "drop-data", "droprcpt:d@example.org", "rcpt421:d@example.org", "mail5:mx.example.org:1", "mail5:mx.example.org:2", "mail4:mx.example.org:2"}
 	idx := 0
 	for _, h := range hists {
 		for _, f := range faults {
